@@ -153,7 +153,12 @@ class UnifiedTypeService:
         # Add modern | None syntax if needed
         # Modern Python 3.10+ uses | None syntax without needing Optional import
         if resolved.is_optional and not python_type.endswith("| None"):
-            python_type = f"{python_type} | None"
+            if resolved.is_forward_ref and python_type.startswith('"') and python_type.endswith('"'):
+                # `"Node" | None` is evaluated when the class body runs and fails (str | NoneType): the union belongs
+                # inside the quotes, where it is only evaluated once the class exists
+                python_type = f'"{python_type[1:-1]} | None"'
+            else:
+                python_type = f"{python_type} | None"
 
             # DEBUG: Check for malformed type strings
             if python_type.count("[") != python_type.count("]"):
